@@ -103,7 +103,7 @@ reg('C02', 'exploration',
     'Bounded exhaustive exploration of the forwarding/wiring of every conversion entry point: every dimensional quantity type x every '
     'unit of its unit type x 3 numeric types x every constructor form, every Create<u> overload, Value(u2), StaticValue<u>, and the '
     'numbers inside Print/JSON/XML/YAML(u2), and per unit type every container form of Convert/ConvertInPlace/ConvertStatically '
-    '(scalar, array<1,2,3,6,9,17>, vector<0,1,5,64>, PlanarVector, Vector, SymmetricDyad, Dyad), each compared slot by slot with the '
+    '(scalar, array<1,2,3,6,9,17>, vector<0,1,5,64,1000,1024,4096>, PlanarVector, Vector, SymmetricDyad, Dyad), each compared slot by slot with the '
     'scalar PhQ::Convert of that component (<= 1 ulp) using pairwise distinct slot values; copying forms must not modify their '
     'argument, in-place == copying, unit-to-itself identity, construct-in-u/read-in-u round trip. quick covers target units '
     '{u, next(u), standard} for every u; thorough all ordered unit pairs.',
